@@ -454,6 +454,25 @@ impl Sim {
             };
             // evidence of misbehaviour (profile `paths` only; the history ends after such a block because the application drops
             // the named validator from its own set while CometBFT's set - which the harness models for the votes - keeps it)
+            // `validators` profile: evidence naming one or two validators of the genesis set (never all of them). From such a block on the
+            // application's set and CometBFT's legitimately differ (C14 excludes these blocks), but the stored count must keep matching
+            // the stored set; the history goes on
+            if last && self.profile == "validators" && height >= 2 && self.rng.gen_bool(0.1) {
+                let nv = self.uni.validators.len();
+                let k = if nv >= 3 && self.rng.gen_bool(0.6) { 2 } else { 1 };
+                if nv > k {
+                    let first = self.rng.gen_range(0..nv);
+                    let mut named = vec![];
+                    for j in 0..k {
+                        let i = (first + j) % nv;
+                        let mut ev = self.make_evidence(height, time);
+                        ev.validator = abci::types::Validator { address: self.uni.validator_address(i).as_bytes().try_into().unwrap(), power: self.uni.validators[i].1.into() };
+                        named.push(vlog::hex(self.uni.validators[i].0.key.verification_key().as_ref()));
+                        ctx.misbehavior.push(ev);
+                    }
+                    self.log.ev(json!({"kind": "evidence_block", "hist": hist, "height": height, "named": named}));
+                }
+            }
             if last && self.profile == "paths" && height >= 2 && self.rng.gen_bool(0.06) {
                 ctx.misbehavior = vec![self.make_evidence(height, time)];
                 self.stop_after_height = true;
